@@ -547,13 +547,18 @@ func (s *Sim) choose() int {
 func (s *Sim) Run(root func()) (verdict Verdict) {
 	cur.Store(s)
 	defer cur.Store(nil)
-	raceDisable()
-	defer raceEnable()
 	defer func() { s.elapsed = time.Since(s.start) }()
 	s.schedGID = goid()
 	s.start = time.Now()
 	rt := &task{label: "r"}
 	atomic.AddInt32(&s.live, 1)
+	// the scheduler uses timers while the detector ignores its synchronisation events: initialise the
+	// runtime's lazily created timer settings (a sync.Once inside package time) here, with the detector
+	// listening, so that the Once is never first run by a task and then read "unsynchronised" by us
+	warm := time.NewTimer(time.Hour)
+	warm.Stop()
+	// the root goroutine is created with the race detector listening: what the caller prepared
+	// before Run happens-before everything the root task does
 	go func() {
 		raceDisable()
 		id := goid()
@@ -573,6 +578,8 @@ func (s *Sim) Run(root func()) (verdict Verdict) {
 		}()
 		root()
 	}()
+	raceDisable()
+	defer raceEnable()
 	for {
 		synctest.Wait()
 		s.mu.Lock()
